@@ -273,17 +273,26 @@ Proof.
   apply (lrun_o_reach revive_trace (linit false 0)); [apply (lo_init false 0)|vm_compute; reflexivity].
 Qed.
 
-(* B3. Close.  The faithful model REFUTES "finalised only after every handle has been released (unless
-       force-closed)" once Close(false) may run while a zero-check is pending: unRefExternal, finding the
-       cache closed, calls callFinalizer without re-checking the count.  Witness replayed on the real
-       implementation by `build/c17 --extra closerace` (tens of reproductions per 10^7 trials). *)
+(* B3. Close.  The faithful model of the code as it was ([exec_old]) REFUTES "finalised only after every
+       handle has been released (unless force-closed)" once Close(false) may run while a zero-check is
+       pending: unRefExternal, finding the cache closed, called callFinalizer without looking at the count
+       again.  The witness was replayed on the implementation (`build/c17 --extra closerace`: tens of
+       reproductions per 10^7 trials) and the code repaired (repo commit "fix: cache: finalise once, and
+       only at zero references, on a closed cache"); with the repair — modelled in [exec] — the same
+       schedule leaves the value alive. *)
 Theorem C17_close_race_refuted :
-  exists L, lrun (linit false 0) close_race_trace = Some L /\
+  exists L, lrun_old (linit false 0) close_race_trace = Some L /\
     s_forced (l_g L) = false /\ handles_on 0 (s_handles (l_g L)) = 1%nat /\
     handle_node (l_g L) 1 <> None /\ handle_value (l_g L) 1 = None /\
     In (EvConstruct 0 0 1) (s_log (l_g L)) /\ cf 0 (s_log (l_g L)) = 1%nat.
 Proof. exact close_race_refuted. Qed.
 Print Assumptions C17_close_race_refuted.
+
+Theorem C17_close_race_repaired :
+  exists L, lrun (linit false 0) close_race_trace = Some L /\
+    handles_on 0 (s_handles (l_g L)) = 1%nat /\ handle_value (l_g L) 1 = Some 0 /\ cf 0 (s_log (l_g L)) = 0%nat.
+Proof. exact close_race_repaired. Qed.
+Print Assumptions C17_close_race_repaired.
 
 (* Full statements that remain open for the interleaved semantics with Close (proved above for the
    sequential semantics, Part A):
@@ -291,6 +300,7 @@ Print Assumptions C17_close_race_refuted.
                                                                     other goroutine is idle)
      forall L, lreach_q L -> s_closed (l_g L) = true -> s_handles (l_g L) = [] -> (all goroutines idle) ->
        forall x v sz, In (EvConstruct x v sz) (s_log (l_g L)) -> cf v (s_log (l_g L)) = 1       (exactly once at the end)
-   and, for any Close discipline, the overlap of Close(true)'s callFinalizer with a concurrent Release
-   (a value finalised twice; reproduced on the implementation by the same experiment) which the LTS,
-   having callFinalizer as one action, does not represent. *)
+   The overlap of Close(true)'s callFinalizer with a concurrent Release (a value finalised twice on the
+   code as it was; reproduced by the same experiment and repaired by the same commit, which makes
+   callFinalizer take the value and the delFuncs exactly once under the node lock) is below the LTS's
+   granularity (callFinalizer is one action). *)
